@@ -19,6 +19,13 @@ class CustomError(Exception):
     pass
 
 
+class BadStrError(Exception):
+    """An exception that cannot even be rendered (str() raises): still just a failed execution."""
+
+    def __str__(self) -> str:
+        raise RuntimeError("cannot render this exception")
+
+
 EXC = {
     "ValueError": ValueError,
     "KeyError": KeyError,
@@ -26,6 +33,7 @@ EXC = {
     "TimeoutError": asyncio.TimeoutError,
     "RuntimeError": RuntimeError,
     "ZeroDivisionError": ZeroDivisionError,
+    "BadStrError": BadStrError,
 }
 
 
@@ -155,6 +163,8 @@ def build_router(case: dict, trace: Trace, loop: vclock.VLoop, fn_tag: str = "",
             k = o["k"]
             if k == "ret":
                 leave(e, "returned")
+                if isinstance(o.get("v"), dict) and o["v"].get("$unserializable"):
+                    return object()  # the converter cannot encode this: the execution counts as failed
                 return o.get("v")
             if k == "raise":
                 leave(e, "raised")
@@ -351,9 +361,14 @@ async def run_worker_case(loop: vclock.VLoop, case: dict, *, settled: Callable[[
     env = Env(case.get("broker", "mem"), loop, case.get("seed", 0))
     spy = Spy(loop)
     trace = Trace(case, env, spy)
-    conn = env.connection("w0", case.get("lat"), buckets=case.get("buckets", True), spy=spy)
+    conn = env.connection("w0", case.get("lat"), buckets=case.get("buckets", True) and case.get("worker_buckets", True), spy=spy)
     trace.conn = conn
     await conn.connect()
+    # jobs may be produced through another connection (e.g. one that has bucket brokers while the worker's has none)
+    prod_conn = conn
+    if not case.get("worker_buckets", True) and env.kind == "mem":
+        prod_conn = env.connection("p0", None, buckets=True)
+        await prod_conn.connect()
 
     router = build_router(case, trace, loop)
     queues = sorted({a.get("queue", "default") for a in case["actors"]} | {j.get("queue", "default") for j in case["jobs"]})
@@ -374,7 +389,7 @@ async def run_worker_case(loop: vclock.VLoop, case: dict, *, settled: Callable[[
         dt = j.get("enqueue_at", 0.0) - loop.time()
         if dt > 0 and j.get("after") is None:
             await asyncio.sleep(dt)
-        job = Job(**job_kwargs(j, conn))
+        job = Job(**job_kwargs(j, prod_conn))
         trace.job_objs[j["id"]] = job
         trace.enqueue_t[j["id"]] = loop.time()
         if j.get("defer_by") is not None or j.get("defer_until") is not None:
